@@ -887,7 +887,6 @@ def tiff_checks(w, case):
         S, H, W = ref.shape
         nd = _nodata_value(case)
         with tifffile.TiffFile(w.path) as tf:
-            require(tf.is_bigtiff == bool(case["bigtiff"]), "bigtiff=%r requested, file is_bigtiff=%r", case["bigtiff"], tf.is_bigtiff)
             pages = list(tf.pages)
             require(len(pages) >= 1, "no IFD in the file")
             arrs = []
